@@ -433,6 +433,115 @@ def canonicalise_names(j):
     return ren_fn, ren_field
 
 
+def _remap(x, loff, boff):
+    """Deep copy of a fact fragment with locals shifted by loff and block indices by boff."""
+    if isinstance(x, dict):
+        out = {}
+        is_place = 'l' in x and 'p' in x and isinstance(x.get('p'), list)
+        for k, v in x.items():
+            if is_place and k == 'l':
+                out[k] = v + loff
+            elif is_place and k == 'p':
+                np_ = []
+                for pr in v:
+                    pr = list(pr)
+                    if pr and pr[0] == 'index':
+                        pr[1] = pr[1] + loff
+                    np_.append(pr)
+                out[k] = np_
+            elif is_place and k == 's':
+                import re
+                out[k] = re.sub(r'_(\d+)(?![0-9])', lambda m: '_%d' % (int(m.group(1)) + loff), v)
+            elif k in ('t', 'otherwise') and isinstance(v, int) and ('k' in x):
+                out[k] = v + boff
+            elif k == 'targets' and isinstance(v, list):
+                out[k] = [[a, b + boff] for a, b in v]
+            elif k == 'succ' and isinstance(v, list):
+                out[k] = [b + boff for b in v]
+            else:
+                out[k] = _remap(v, loff, boff)
+        return out
+    if isinstance(x, list):
+        return [_remap(v, loff, boff) for v in x]
+    return x
+
+
+def inline_new_helpers(j, max_rounds=4):
+    """Extracting a few lines into a new private helper must not change a verdict.  Every kira function that is NOT in
+    the names baseline (i.e. did not exist on the pinned tree) and is called directly from kira code is spliced into its
+    callers at the fact level (blocks and locals renumbered, arguments bound by assignments, returns turned into an
+    assignment of the destination plus a goto).  Rules then see the caller as if the helper had never been extracted.
+    Returns {caller path: [helper paths]}."""
+    import os
+    base_path = os.path.join(os.path.dirname(os.path.dirname(os.path.abspath(__file__))), 'tables', 'names_baseline.json')
+    if not os.path.exists(base_path) or j.get('crate') != 'kira':
+        return {}
+    base = json.load(open(base_path))['fns']
+    by_path = {}
+    for b in j['bodies']:
+        if b['krate'] == 'kira' and b['key'].startswith('D:') and '{closure' not in b['path']:
+            by_path.setdefault(norm(b['path']), []).append(b)
+    helpers = {p: bs[0] for p, bs in by_path.items() if p not in base and len(bs) == 1 and bs[0]['kind'] in ('Fn', 'AssocFn')}
+    # trait-impl methods are reached through the trait, never inlined
+    helpers = {p: b for p, b in helpers.items() if not p.startswith('<')}
+    if not helpers:
+        return {}
+    done = {}
+    for _ in range(max_rounds):
+        changed = False
+        for c in j['bodies']:
+            if c['krate'] != 'kira':
+                continue
+            cpath = norm(c['path'])
+            nb = len(c['blocks'])
+            for bi in range(nb):
+                blk = c['blocks'][bi]
+                t = blk['term']
+                if t.get('k') != 'call' or blk.get('cleanup'):
+                    continue
+                cal = t.get('callee') or {}
+                hp = norm(cal.get('resolved') or cal.get('path') or '')
+                h = helpers.get(hp)
+                if h is None or h is c or hp == cpath or len(h['blocks']) > 400:
+                    continue
+                loff = len(c['locals'])
+                boff = len(c['blocks'])
+                c['locals'].extend(dict(x) for x in h['locals'])
+                for d in h.get('debug', []):
+                    c['debug'].append(_remap(d, loff, boff))
+                newb = _remap(h['blocks'], loff, boff)
+                hfile = h['file']
+                h['inlined_away'] = True
+                for x in newb:
+                    x['inl'] = hp
+                    if hfile != c['file'] and 'file' not in x['term']:
+                        x['term']['file'] = hfile
+                    if x['term'].get('k') == 'return':
+                        line = x['term'].get('line', 0)
+                        x['stmts'].append({'k': 'assign', 'lhs': t['dest'], 'rv': {'k': 'use', 'op': {'k': 'move', 'pl': {'l': loff, 'p': [], 'ty': None, 's': '_%d' % loff}}},
+                                           'line': line, 'exp': False})
+                        if t.get('t') is None:
+                            x['term'] = {'k': 'unreachable', 'line': line, 'exp': False}
+                            x['succ'] = []
+                        else:
+                            x['term'] = {'k': 'goto', 't': t['t'], 'line': line, 'exp': False}
+                            x['succ'] = [t['t']]
+                        if hfile != c['file']:
+                            x['term']['file'] = hfile
+                for i, a in enumerate(t.get('args', [])):
+                    blk['stmts'].append({'k': 'assign', 'lhs': {'l': loff + 1 + i, 'p': [], 'ty': None, 's': '_%d' % (loff + 1 + i)},
+                                         'rv': {'k': 'use', 'op': a}, 'line': t.get('line', 0), 'exp': False})
+                blk['term'] = {'k': 'goto', 't': boff, 'line': t.get('line', 0), 'exp': False, 'inlined': hp}
+                blk['succ'] = [boff]
+                c['blocks'].extend(newb)
+                done.setdefault(cpath, []).append(hp)
+                changed = True
+        if not changed:
+            break
+    j['inlined_helpers'] = done
+    return done
+
+
 class Facts:
     def __init__(self, path_or_json):
         if isinstance(path_or_json, str):
@@ -441,14 +550,17 @@ class Facts:
         else:
             j = path_or_json
         self.renamed_fns, self.renamed_fields = canonicalise_names(j)
+        self.inlined = inline_new_helpers(j)
         self.j = j
         self.nonce = j.get('nonce')
         self.crate = j['crate']
         self.overflow_checks = j['overflow_checks']
-        self.bodies = [Body(b, i) for i, b in enumerate(j['bodies'])]
+        self.all_bodies = [Body(b, i) for i, b in enumerate(j['bodies'])]
+        # rules iterate `bodies`: helpers that were spliced into their callers are seen there, not on their own
+        self.bodies = [b for b in self.all_bodies if not b.j.get('inlined_away')]
         self.by_path = defaultdict(list)
         self.by_id = {}
-        for b in self.bodies:
+        for b in self.all_bodies:
             self.by_path[b.path].append(b)
             if b.key.startswith('D:'):
                 self.by_id[b.key[2:]] = b
@@ -486,13 +598,24 @@ class Facts:
         return [b for b in self.bodies if pred(b)]
 
     def closures_of(self, path):
-        return [b for b in self.bodies if b.path.startswith(path + '::{closure')]
+        out = [b for b in self.bodies if b.path.startswith(path + '::{closure')]
+        # closures of helpers that were spliced into this function belong to it too
+        seen = set()
+        todo = list(self.inlined.get(path, []))
+        while todo:
+            h = todo.pop()
+            if h in seen:
+                continue
+            seen.add(h)
+            out += [b for b in self.bodies if b.path.startswith(h + '::{closure')]
+            todo += self.inlined.get(h, [])
+        return out
 
     def body_of_instance(self, i):
         bi = self.instances[i].get('body')
         if bi is None:
             return None
-        return self.bodies[bi]
+        return self.all_bodies[bi]
 
     def root_instances(self, groups):
         return [r['inst'] for r in self.roots if r['group'] in groups and r.get('inst') is not None]
@@ -687,6 +810,13 @@ def expand_place(body, pl, depth=8):
                 and 'Unsize' not in rv.get('ck', '') and 'Transmute' not in rv.get('ck', ''):
             inner = rv['op']['pl']
             proj = list(inner['p']) + proj
+            l = inner['l']
+            continue
+        if rv['k'] == 'agg' and rv.get('ak') == 'tuple' and len(proj) >= 2 and proj[0][0] == 'field' and proj[1][0] == 'deref' \
+                and proj[0][1] < len(rv['ops']) and is_place(rv['ops'][proj[0][1]]):
+            # a tuple of references built to bind several places at once: (*_7.0) with _7 = (move _14, ..) -> (*_14)
+            inner = rv['ops'][proj[0][1]]['pl']
+            proj = list(inner['p']) + proj[1:]
             l = inner['l']
             continue
         break
